@@ -295,15 +295,25 @@ func probeValues(g *Gen, t reflect.Type, name string) []reflect.Value {
 	// absolute URLs in presentations a URL library would print differently: an IRI is kept as it was written
 	odd := []ap.Item{ap.IRI("HTTPS://Example.COM/Actors/Alice"), ap.IRI("https://example.com/users/j\u00fcrgen"), ap.IRI("https://example.com/notes/3#"),
 		ap.IRI("https://example.com/a%20b?q=%C3%A9&r=a+b"), ap.IRI("https://example.com:443/x"), ap.IRI("https://example.com/a/../b/./c//d")}
+	// two members of one kind that say the same about everything but their id: both are members
+	act2 := &ap.Activity{ID: "https://example.com/act2", Type: ap.LikeType, Actor: id, Object: ap.IRI("https://example.com/notes/1"), Target: ap.IRI("https://example.com/t")}
+	act3 := &ap.Activity{ID: "https://example.com/act3", Type: ap.LikeType, Actor: id, Object: ap.IRI("https://example.com/notes/1"), Target: ap.IRI("https://example.com/t")}
+	obj2 := &ap.Object{ID: "https://example.com/notes/2", Type: ap.NoteType, Name: ap.NaturalLanguageValues{{Ref: ap.NilLangRef, Value: ap.Content("n")}}}
+	arr2 := &ap.IntransitiveActivity{ID: "https://example.com/arr2", Type: ap.ArriveType, Actor: id, Target: ap.IRI("https://example.com/t")}
+	arr3 := &ap.IntransitiveActivity{ID: "https://example.com/arr3", Type: ap.ArriveType, Actor: id, Target: ap.IRI("https://example.com/t")}
+	twins := []ap.ItemCollection{{act2, act3}, {obj, obj2}, {arr2, arr3}, {actor, &ap.Actor{ID: "https://example.com/actors/bob2", Type: ap.PersonType}}}
 	switch {
 	case name == "ID" || name == "Type":
 		return nil
 	case t == tItems:
 		return []reflect.Value{v(ap.ItemCollection{id}), v(ap.ItemCollection{id, obj}), v(ap.ItemCollection{obj}), v(ap.ItemCollection{actor, link, act}), v(ap.ItemCollection{idless}),
-			v(ap.ItemCollection(odd)), v(ap.ItemCollection{odd[1]})}
+			v(ap.ItemCollection(odd)), v(ap.ItemCollection{odd[1]}), v(twins[0]), v(twins[1]), v(twins[2]), v(twins[3])}
 	case t.Kind() == reflect.Interface:
 		items := []ap.Item{id, obj, actor, link, act, idless, ap.ItemCollection{id, obj}, ap.ItemCollection{id}, ap.ItemCollection(odd)}
 		items = append(items, odd...)
+		for _, tw := range twins {
+			items = append(items, tw)
+		}
 		out := make([]reflect.Value, len(items))
 		for i, it := range items {
 			out[i] = reflect.New(t).Elem()
